@@ -1164,31 +1164,37 @@ fn run_callback_mutation(ops: &[Op]) {
 // 2 `repeat n { g = nth_row([.. a new table ..], 1) }` on a small heap.  Afterwards every stored value is read back.
 // The unrepaired code stores pointers to freed strings: the scenario runs in a child process under valgrind.
 fn operand_rooting_scenario(ops: &[Op]) {
-    let kind = ops[0].0 % 3;
+    let kind = ops[0].0 % 4;
     let n = 1000 + (ops[0].1 % 8) as i64 * 500;
     let text = "a string value that is long enough to matter";
     let body: Card = match kind {
+        // a native function called on a temporary: the VmFunction wrapper pops the argument before the call
+        3 => Card::set_global_var("g", Card::call_native("__to_array", vec![Card::call_function("mk", vec![])])),
         0 => CardBody::AppendTable(cao_lang::compiler::BinaryExpression::new([Card::string_card(text), Card::read_var("t")])).into(),
         1 => Card::set_property(Card::string_card(text), Card::read_var("t"), Card::read_var("i")),
-        _ => Card::set_global_var("g", CardBody::Get(cao_lang::compiler::BinaryExpression::new([
-                 Card::from(CardBody::Array(vec![Card::string_card(text), Card::string_card(text), Card::string_card(text)])), Card::scalar_int(1)]))),
+        // the table operand of NthRow is a temporary (the value a function returned)
+        _ => Card::set_global_var("g", CardBody::Get(cao_lang::compiler::BinaryExpression::new([Card::call_function("mk", vec![]), Card::scalar_int(1)]))),
     };
+    // mk(): a new table of strings that only its caller's operand stack refers to
+    let mut mk = vec![Card::set_var("m", CardBody::CreateTable)];
+    for _ in 0..12 { mk.push(CardBody::AppendTable(cao_lang::compiler::BinaryExpression::new([Card::string_card(text), Card::read_var("m")])).into()); }
+    mk.push(Card::return_card(Card::read_var("m")));
     let module = Module {
         functions: vec![("main".to_string(), Function::default().with_cards(vec![
             Card::set_global_var("t", CardBody::CreateTable),
             Card::repeat(Card::scalar_int(n), Some("i".to_string()), body),
-        ]))],
+        ])), ("mk".to_string(), Function::default().with_cards(mk))],
         ..Default::default()
     };
     let program = compile(module, None).unwrap();
     let mut vm = Vm::new(()).unwrap().with_max_iter(100_000_000);
-    vm.runtime_data.set_memory_limit(if kind == 2 { 64 << 10 } else { 1 << 20 });
+    vm.runtime_data.set_memory_limit(if kind >= 2 { 64 << 10 } else { 1 << 20 });
     let r = vm.run(&program);
     let mut good = 0usize;
     if let Some(t) = vm.read_var_by_name("t", &program.variables) {
         if let Some(t) = unsafe { t.as_table() } { good = t.iter().filter(|(_, v)| unsafe { v.as_str() } == Some(text)).count(); }
     }
-    if kind == 2 {
+    if kind >= 2 {
         if let Some(g) = vm.read_var_by_name("g", &program.variables) {
             if let Some(row) = unsafe { g.as_table() } { good += row.iter().filter(|(_, v)| unsafe { v.as_str() } == Some(text)).count(); }
         }
@@ -1209,11 +1215,12 @@ fn run_operand_rooting(ops: &[Op]) {
 // ---------------------------------------------------------------- stdlib_model (C09: what the native-backed library functions return)
 // A table {100+i: v_i} with small values (many ties), and std.min_by_key / max_by_key / sorted_by_key with one of four key
 // functions of (key, val) -- val, -val, -key, val * 1000 - key -- or std.to_array; compared with the specification: first
-// extreme row, stable ascending order, values re-keyed 0..n-1.  ops[i].2 are the values; variant % 4 picks the function,
-// (variant / 4) % 4 the key function.
+// extreme row, stable ascending order, values re-keyed 0..n-1.  ops[i].2 are the values; (variant / 4) % 4 picks the function,
+// (variant / 16) % 4 the key function.
 fn run_stdlib_model(ops: &[Op], variant: u64) {
-    let which = variant % 4;
-    let kf = (variant / 4) % 4;
+    // (the search gives every 4th sequence up to 40 rows: take the function from higher bits so that each gets long tables)
+    let which = (variant / 4) % 4;
+    let kf = (variant / 16) % 4;
     let fname = ["min_by_key", "max_by_key", "sorted_by_key", "to_array"][which as usize];
     let vals: Vec<i64> = ops.iter().map(|o| o.2.rem_euclid(7)).collect();
     let n = vals.len();
